@@ -124,6 +124,9 @@ func InstallHooks() {
 			return
 		}
 		if p, ok := arg.(string); ok {
+			if strings.HasPrefix(point, "tempfile.go:Create:") {
+				s.NoteCreated(p)
+			}
 			point += "(" + NormPath(p) + ")"
 		}
 		s.Yield(point)
@@ -176,6 +179,16 @@ func StampTimes(dir string, oldestFirst []string) {
 	seen := map[string]bool{}
 	i := 0
 	for _, rel := range oldestFirst {
+		if filepath.IsAbs(rel) {
+			r, err := filepath.Rel(dir, rel)
+			if err != nil || strings.HasPrefix(r, "..") {
+				continue
+			}
+			rel = r
+		}
+		if _, err := os.Stat(filepath.Join(dir, rel)); err != nil {
+			continue
+		}
 		if seen[rel] {
 			continue
 		}
